@@ -4,6 +4,8 @@
  * $RV_SHIM_CTR  : file holding a shared 64-bit counter (mmap'ed, shared across the process tree)
  * $RV_SHIM_LOG  : append-only log, one line per counted call: "<n> <pid> <call> <path>"
  * $RV_SHIM_KILL_AT=<n>, $RV_SHIM_VICTIM=self|group : SIGKILL immediately BEFORE the n-th call
+ * $RV_SHIM_STOP_AT=<n> : the process issuing the n-th call SIGSTOPs itself immediately before it (the harness decides
+ *                        when it continues)
  * $RV_SHIM_ROOT : only paths under this directory are counted (the project root)
  * $RV_SHIM_WRITES=1 : also count write()/pwrite()/writev() on files under $RV_SHIM_ROOT
  * $RV_SHIM_RACE_FD=<fd>, $RV_SHIM_RACE_AT=<k>, $RV_SHIM_RACE_OUT=<fd> : reads on <fd> (the jobserver token pipe) are
@@ -33,6 +35,7 @@ static int active = -1;
 static volatile uint64_t *ctr;
 static int logfd = -1;
 static uint64_t kill_at;
+static uint64_t stop_at;
 static int victim_group;
 static int count_writes;
 static char root[PATH_MAX];
@@ -70,6 +73,8 @@ static void init(void) {
     }
     const char *k = getenv("RV_SHIM_KILL_AT");
     kill_at = k ? strtoull(k, NULL, 10) : 0;
+    const char *sa = getenv("RV_SHIM_STOP_AT");
+    stop_at = sa ? strtoull(sa, NULL, 10) : 0;
     const char *v = getenv("RV_SHIM_VICTIM");
     victim_group = v && strcmp(v, "group") == 0;
     const char *w = getenv("RV_SHIM_WRITES");
@@ -117,6 +122,9 @@ static void point(const char *call, int dirfd, const char *path) {
                                abs + rootlen);
             ssize_t (*rwrite)(int, const void *, size_t) = dlsym(RTLD_NEXT, "write");
             if (len > 0) rwrite(logfd, line, (size_t)len);
+        }
+        if (stop_at && n == stop_at) {
+            raise(SIGSTOP);
         }
         if (kill_at && n == kill_at) {
             if (victim_group) kill(0, SIGKILL);
